@@ -20,6 +20,24 @@ fn strip(src: &str) -> String {
                 else if b[i] == '*' && i + 1 < b.len() && b[i + 1] == '/' { depth -= 1; out.push_str("  "); i += 2; if depth == 0 { break; } }
                 else { out.push(if b[i] == '\n' { '\n' } else { ' ' }); i += 1; }
             }
+        } else if c == 'r' && (i == 0 || !(b[i - 1].is_alphanumeric() || b[i - 1] == '_')) && {
+            let mut j = i + 1; while j < b.len() && b[j] == '#' { j += 1; } j < b.len() && b[j] == '"' } {
+            // raw string r"..." / r#"..."#: no escapes, ends at a quote followed by the same number of hashes
+            let mut j = i + 1; let mut hashes = 0;
+            while b[j] == '#' { hashes += 1; j += 1; }
+            j += 1;                                              // the opening quote
+            for _ in i..j { out.push(' '); }
+            loop {
+                if j >= b.len() { break; }
+                if b[j] == '"' && (0..hashes).all(|k| j + 1 + k < b.len() && b[j + 1 + k] == '#') {
+                    for _ in 0..=hashes { out.push(' '); }
+                    j += 1 + hashes;
+                    break;
+                }
+                out.push(if b[j] == '\n' { '\n' } else { ' ' });
+                j += 1;
+            }
+            i = j;
         } else if c == '"' {
             out.push('"'); i += 1;
             while i < b.len() && b[i] != '"' {
